@@ -186,13 +186,15 @@ def mutate(s, m):
     elif cl == "lex_underscore_ident":
         E[0]["attrs"].append({"name": "_bad", "ty": {"base": "INTEGER", "agg": "none", "lo": 0, "hi": 0, "uniq": False, "optelem": False}, "opt": False})
     elif cl == "lex_unexpected_char":
-        post = lambda t: t.replace("END_SCHEMA;", "~ END_SCHEMA;", 1)
+        post = lambda t: t.replace("END_SCHEMA;", m["lexeme"] + " END_SCHEMA;", 1)
     elif cl == "lex_nonascii":
         post = lambda t: t.replace("ENTITY e1", "ENTITY ée1", 1)
     elif cl == "lex_bad_hex_digit":
-        body = 'CONSTANT k1 : STRING := "0000004G"; END_CONSTANT;\n'
+        lit = {"last": "0000004" + m["lexeme"], "first": m["lexeme"] + "0000041", "middle": "000" + m["lexeme"] + "0041",
+               "second_group": "0000004100" + m["lexeme"] + "00042"}[m.get("pos") or "last"]
+        head = 'CONSTANT k1 : STRING := "%s"; END_CONSTANT;\n' % lit      # (constants come before the declarations)
     elif cl == "lex_bad_hex_count":
-        body = 'CONSTANT k1 : STRING := "000041"; END_CONSTANT;\n'
+        head = 'CONSTANT k1 : STRING := "%s"; END_CONSTANT;\n' % ("0000004100000042000000430"[:int(m["lexeme"])])
     elif cl == "argcount":
         call = "f1x + 1" if m.get("pos") == "noargs" else "f1x(1, 2, 3)"
         body = "FUNCTION f1x(p1 : INTEGER) : INTEGER;\n  RETURN (p1);\nEND_FUNCTION;\nRULE r1 FOR (e1);\nWHERE\n  wr : %s > 0;\nEND_RULE;\n" % call
